@@ -211,6 +211,19 @@ func Parse(input string, base *URL, url *URL, override State) (*URL, Result) {
 		state = SchemeStart
 	}
 	var buf []rune
+	// the opaque path and the fragment are appended to code point by code point; they are collected
+	// in builders and flushed when the parser returns (a string += per code point is quadratic)
+	var opq, frag strings.Builder
+	opqUsed, fragUsed := false, false
+	defer func() {
+		if opqUsed {
+			url.OpaquePath += opq.String()
+		}
+		if fragUsed && url.Fragment != nil {
+			f := *url.Fragment + frag.String()
+			url.Fragment = &f
+		}
+	}()
 	atSign, inBrackets, pwSeen := false, false, false
 	special := func() bool { return IsSpecial(url.Scheme) }
 	startsWith := func(p int, s string) bool { // remaining (after pointer) starts with s
@@ -618,7 +631,8 @@ func Parse(input string, base *URL, url *URL, override State) (*URL, Result) {
 				url.Fragment = &f
 				state = FragmentState
 			} else if c != eof {
-				url.OpaquePath += pctEncode(c, c0Set)
+				opq.WriteString(pctEncode(c, c0Set))
+				opqUsed = true
 			}
 		case QueryState:
 			if (override == NoState && c == '#') || c == eof {
@@ -639,8 +653,8 @@ func Parse(input string, base *URL, url *URL, override State) (*URL, Result) {
 			}
 		case FragmentState:
 			if c != eof {
-				f := *url.Fragment + pctEncode(c, fragmentSet)
-				url.Fragment = &f
+				frag.WriteString(pctEncode(c, fragmentSet))
+				fragUsed = true
 			}
 		}
 		if p >= len(in) {
